@@ -10,6 +10,7 @@ use mc_core::{e1, e2::{self, Machine, StepOut}, json, Cli, Report};
 use solana_program::instruction::Instruction;
 
 use crate::svm::{addr, meta, process, Acc, Db, TxError};
+use crate::orders::Side;
 use crate::world::{self, ix, sys, W};
 
 const ROLES: [&str; 9] = ["MARKET_KEEPER", "ORDER_KEEPER", "ORACLE_CONTROLLER", "PRICE_KEEPER", "FEATURE_KEEPER", "CONFIG_KEEPER", "GT_CONTROLLER", "MARKET_CONFIG_KEEPER", "MIGRATION_KEEPER"];
@@ -132,6 +133,39 @@ fn probes() -> Vec<Probe> {
     p!("gt_set_referral_reward_factors", Role("GT_CONTROLLER"), |w, _db, by| (ix(w.pid, a::ConfigureGt { authority: by, store: w.store }, i::GtSetReferralRewardFactors { factors: vec![0] }), vec![by]));
     p!("gt_set_order_fee_discount_factors", Role("MARKET_KEEPER"), |w, _db, by| (ix(w.pid, a::ConfigureGt { authority: by, store: w.store }, i::GtSetOrderFeeDiscountFactors { factors: vec![0] }), vec![by]));
     p!("update_gt_cumulative_inv_cost_factor", Role("GT_CONTROLLER"), |w, _db, by| (ix(w.pid, a::UpdateGtCumulativeInvCostFactor { authority: by, store: w.store }, i::UpdateGtCumulativeInvCostFactor {}), vec![by]));
+    // ---- position orders (world: an open position, a pending increase and a pending decrease order of `user`, claimable accounts prepared)
+    const LONG_B: Side = Side { is_long: true, collateral_long: false };
+    p!("order:use_claimable_account", Role("ORDER_KEEPER"), |w, db, by| (w.use_claimable_ix(db, w.a, w.user2, 1_000, by), vec![by]));
+    p!("order:execute_increase_or_swap_order_v2", Role("ORDER_KEEPER"), |w, db, by| {
+        let _ = w.prepare_event_buffer(db, by, 0);
+        (w.execute_increase_ix(&w.m1, w.user, [0x52; 32], LONG_B, by, true), vec![by])
+    });
+    p!("order:execute_decrease_order_v2", Role("ORDER_KEEPER"), |w, db, by| {
+        let _ = w.prepare_event_buffer(db, by, 0);
+        (w.execute_decrease_ix(db, &w.m1, w.user, [0x53; 32], LONG_B, by, true), vec![by])
+    });
+    p!("order:liquidate", Role("ORDER_KEEPER"), |w, db, by| {
+        let _ = w.prepare_event_buffer(db, by, 0);
+        (w.liquidate_ix(db, &w.m1, w.user, [0x54; 32], LONG_B, by), vec![by])
+    });
+    // ---- GLV management (world: a GLV over both markets)
+    p!("glv:initialize_glv", Role("MARKET_KEEPER"), |w, _db, by| (crate::glvchk::initialize_glv_ix(w, 5, &[&w.m1, &w.m2], by), vec![by]));
+    p!("glv:update_glv_market_config", Role("MARKET_KEEPER"), |w, _db, by| (ix(w.pid, a::UpdateGlvMarketConfig { authority: by, store: w.store, glv: crate::glvchk::glv_keys(w, 0).0, market_token: w.m1.market_token }, i::UpdateGlvMarketConfig { max_amount: Some(5), max_value: None }), vec![by]));
+    p!("glv:toggle_glv_market_flag", Role("MARKET_KEEPER"), |w, _db, by| (ix(w.pid, a::UpdateGlvMarketConfig { authority: by, store: w.store, glv: crate::glvchk::glv_keys(w, 0).0, market_token: w.m1.market_token }, i::ToggleGlvMarketFlag { flag: "is_deposit_allowed".into(), enable: true }), vec![by]));
+    p!("glv:update_glv_config", Role("MARKET_KEEPER"), |w, _db, by| (ix(w.pid, a::UpdateGlvConfig { authority: by, store: w.store, glv: crate::glvchk::glv_keys(w, 0).0 }, i::UpdateGlvConfig { params: gmsol_store::states::glv::UpdateGlvParams { min_tokens_for_first_deposit: Some(7), ..Default::default() } }), vec![by]));
+    // ---- liquidity-provider program administration (world: the program initialised by the store admin)
+    fn lp_gs() -> Pubkey {
+        Pubkey::find_program_address(&[gmsol_liquidity_provider::GLOBAL_STATE_SEED], &gmsol_liquidity_provider::ID).0
+    }
+    use gmsol_liquidity_provider::{accounts as la, instruction as li};
+    p!("lp:set_claim_enabled", Admin, |_w, _db, by| (ix(gmsol_liquidity_provider::ID, la::SetClaimEnabled { global_state: lp_gs(), authority: by }, li::SetClaimEnabled { enabled: true }), vec![by]));
+    p!("lp:update_min_stake_value", Admin, |_w, _db, by| (ix(gmsol_liquidity_provider::ID, la::UpdateMinStakeValue { global_state: lp_gs(), authority: by }, li::UpdateMinStakeValue { new_min_stake_value: 7 }), vec![by]));
+    p!("lp:set_pricing_staleness", Admin, |_w, _db, by| (ix(gmsol_liquidity_provider::ID, la::SetPricingStaleness { global_state: lp_gs(), authority: by }, li::SetPricingStaleness { staleness_seconds: 9 }), vec![by]));
+    p!("lp:transfer_authority", Admin, |w, _db, by| (ix(gmsol_liquidity_provider::ID, la::TransferAuthority { global_state: lp_gs(), authority: by }, li::TransferAuthority { new_authority: w.stranger }), vec![by]));
+    p!("lp:create_lp_token_controller", Admin, |w, _db, by| {
+        let controller = Pubkey::find_program_address(&[gmsol_liquidity_provider::LP_TOKEN_CONTROLLER_SEED, lp_gs().as_ref(), w.m2.market_token.as_ref(), &3u64.to_le_bytes()], &gmsol_liquidity_provider::ID).0;
+        (ix(gmsol_liquidity_provider::ID, la::CreateLpTokenController { global_state: lp_gs(), controller, authority: by, system_program: sys() }, li::CreateLpTokenController { lp_token_mint: w.m2.market_token, controller_index: 3 }), vec![by])
+    });
     v
 }
 
@@ -287,7 +321,7 @@ fn handover(rep: &mut Report, cli: &Cli, db: &Db, w: &W) {
 pub fn run(cli: &Cli) -> Report {
     let mut rep = Report::new(cli, "exploration");
     rep.rule("E1 over the instruction x signer matrix through the real entrypoints: every probed privileged instruction (list in `instructions_probed`) is invoked with valid accounts by the entitled signer (must pass authorisation: success or a non-authorisation error) and by a stranger, the store admin, and the single-role holder of each of the nine other roles (must be rejected; the error code is recorded); the offices that move (store authority and fee receiver, each by nominate-then-accept) are explored as histories: E3 breadth-first over transfer_store_authority / accept_store_authority / transfer_receiver / accept_receiver by three actors to a fixpoint, where a signer is entitled iff it holds the office (to nominate) or the nomination (to accept) in the reference, and the stored offices must equal the reference after every step; execute_deposit / execute_withdrawal / close by non-owners are covered by C23, market config updates by C20, the timelock instructions by C36; non-trivial = a rejection of an unauthorised signer was observed");
-    rep.assume("svm-lite commits nothing for a failed instruction (transaction atomicity, self-tested), hence 'leaves all accounts unchanged'; instructions not listed in `instructions_probed` (GLV, virtual inventory, position orders, treasury, liquidity-provider and competition administration) are outside the claim");
+    rep.assume("svm-lite commits nothing for a failed instruction (transaction atomicity, self-tested), hence 'leaves all accounts unchanged'; instructions not listed in `instructions_probed` (GLV actions and shifts, virtual inventory, ADL, treasury and competition administration) are outside the claim");
     if let Some(rv) = &cli.replay {
         if rv.get("path").is_some() {
             let (db, w) = world::build();
@@ -319,6 +353,43 @@ pub fn run(cli: &Cli) -> Report {
         d.set_pod(&w.store, &s);
         d
     };
+    // position orders: an open position, a pending increase and a pending decrease order, claimable accounts for the current window
+    let db_orders = {
+        let mut d = db.clone();
+        W::set_time(1_000);
+        let side = Side { is_long: true, collateral_long: false };
+        let n = [0x50u8; 32];
+        w.create_deposit(&mut d, &w.m1, w.user2, n, 400_000_000, 5_000_000_000, 0, w.user2).expect("seed create");
+        w.execute_deposit(&mut d, &w.m1, w.user2, n, w.keeper, true).expect("seed execute");
+        w.prepare_user(&mut d, w.user).expect("prepare_user");
+        w.prepare_event_buffer(&mut d, w.keeper, 0).expect("event buffer");
+        w.prepare_position(&mut d, &w.m1, w.user, side).expect("prepare_position");
+        let unit = 10u128.pow(20);
+        w.create_increase(&mut d, &w.m1, w.user, [0x51; 32], side, 100_000_000, 300 * unit).expect("create increase");
+        w.execute_increase(&mut d, &w.m1, w.user, [0x51; 32], side, w.keeper, true).expect("execute increase");
+        w.create_increase(&mut d, &w.m1, w.user, [0x52; 32], side, 10_000_000, 30 * unit).expect("create increase 2");
+        w.create_decrease(&mut d, &w.m1, w.user, [0x53; 32], side, 0, 100 * unit).expect("create decrease");
+        let holding = *d.pod::<Store>(&w.store).expect("store").holding();
+        for (mint, owner) in [(w.a, w.user), (w.b, w.user), (w.a, holding)] {
+            w.use_claimable(&mut d, mint, owner, 1_000, w.keeper).expect("use_claimable");
+        }
+        d
+    };
+    let db_glv = {
+        let mut d = db.clone();
+        crate::glvchk::register_token_2022(&mut d);
+        W::set_time(1_000);
+        let i = crate::glvchk::initialize_glv_ix(&w, 0, &[&w.m1, &w.m2], w.keeper);
+        process(&mut d, &i, &[w.keeper]).expect("initialize_glv");
+        d
+    };
+    let db_lp = {
+        let mut d = db.clone();
+        crate::svm::register(gmsol_liquidity_provider::ID, gmsol_liquidity_provider::entry, &mut d);
+        let gs = Pubkey::find_program_address(&[gmsol_liquidity_provider::GLOBAL_STATE_SEED], &gmsol_liquidity_provider::ID).0;
+        process(&mut d, &ix(gmsol_liquidity_provider::ID, gmsol_liquidity_provider::accounts::Initialize { global_state: gs, authority: w.admin, system_program: sys() }, gmsol_liquidity_provider::instruction::Initialize { min_stake_value: 1, initial_apy: 1 }), &[w.admin]).expect("lp initialize");
+        d
+    };
     let ps = probes();
     let names: Vec<&str> = ps.iter().map(|p| p.name).collect();
     rep.extra.insert("instructions_probed".into(), json!(names));
@@ -327,7 +398,7 @@ pub fn run(cli: &Cli) -> Report {
         W::set_time(1_000);
         crate::svm::set_last_restart_slot(0);
         let p = &ps[pi];
-        let db = if p.name.starts_with("gt_") || p.name.starts_with("update_gt") { &db_gt } else { &db };
+        let db = if p.name.starts_with("gt_") || p.name.starts_with("update_gt") { &db_gt } else if p.name.starts_with("order:") { &db_orders } else if p.name.starts_with("glv:") { &db_glv } else if p.name.starts_with("lp:") { &db_lp } else { &db };
         let entitled: Vec<Pubkey> = match &p.need {
             Need::Admin | Need::Receiver => vec![w.admin],
             Need::Role(r) => vec![holder(r)],
